@@ -17,7 +17,9 @@ CORE = "quimb/core.py"
 E1 = [f"{CORE}::{n}" for n in (
     "threading_choose_num_blocks", "threading_get_block_range", "_complex_array_numba", "_phase_to_complex_numba",
     "_subtract_update_1d_numba", "_subtract_update_2d_numba", "_divide_update_1d_numba", "_divide_update_2d_numba",
-    "_dot_csr_matvec_numba", "_l_diag_dot_dense_par", "_r_diag_dot_dense_par", "_outer_par", "_kron_dense_numba")]
+    "_dot_csr_matvec_numba", "_l_diag_dot_dense_par", "_r_diag_dot_dense_par", "_outer_par", "_kron_dense_numba",
+    "maybe_multithread", "complex_array", "phase_to_complex", "subtract_update_", "divide_update_", "par_dot_csr_matvec",
+    "l_diag_dot_dense", "r_diag_dot_dense", "outer", "kron_dense")]
 PROVIDERS = []
 # run-time contracts (substring of the contract name) that exercise an E1 carrier: used to attach a concrete
 # failing input to a failed obligation
@@ -42,12 +44,15 @@ ASSUMPTIONS = [
     "(lemma schedule-noninterference) -- the interleaving itself is not enumerated",
     "np.ceil / round are encoded as 'the integer c with c-1 < x <= c' / 'any integer within 1/2' (over-approximation "
     "of round-half-even)",
-    "wrappers (allocation of the output, size passed to maybe_multithread), par_reduce, kron(parallel=True), "
-    "operator builder workers and gen/rand are covered by the bounded stand-in only",
+    "wrappers: proved are the allocation and shape of the output, the kernel's shape preconditions at the call site, "
+    "pass-through of the thread options, that the output is freshly allocated (no aliasing with inputs) and returned; "
+    "maybe_multithread: one direct call with the kernel defaults or exactly one submission per rank with the same "
+    "(num_threads, target_block_size), all waited for. size_total only decides whether to thread and is not an "
+    "obligation. par_reduce, kron(parallel=True), operator builder workers and gen/rand: bounded stand-in only",
 ]
 EXPLANATION = (
-    "E1: VCs generated from the current source of 13 functions in quimb/core.py (partition arithmetic + 11 threaded "
-    "kernels) and 13 arithmetic lemmas, all discharged by z3: partition tiles [0,N) exactly, every kernel invoked "
+    "E1: VCs generated from the current source of 23 functions in quimb/core.py (partition arithmetic, 11 threaded "
+    "kernels, maybe_multithread, 9 public wrappers) and 13 arithmetic lemmas, all discharged by z3: partition tiles [0,N) exactly, every kernel invoked "
     "with rank r writes exactly the rows of blocks r mod T with a value that is a function of the inputs, all "
     "subscripts in bounds, no division by zero (workers cannot raise). E3 (bounded): every public wrapper vs numpy "
     "over a size x threads x block-size grid.")
